@@ -5,6 +5,10 @@ import (
 	"fmt"
 	"math/rand"
 
+	"google.golang.org/grpc"
+	"google.golang.org/grpc/codes"
+	"google.golang.org/grpc/metadata"
+	"google.golang.org/grpc/status"
 	"google.golang.org/protobuf/proto"
 
 	"github.com/smart-core-os/sc-api/go/traits"
@@ -17,6 +21,7 @@ import (
 	"github.com/smart-core-os/sc-golang/pkg/trait/electricpb"
 	"github.com/smart-core-os/sc-golang/pkg/trait/metadatapb"
 	"github.com/smart-core-os/sc-golang/pkg/trait/parentpb"
+	"github.com/smart-core-os/sc-golang/pkg/wrap"
 )
 
 // C11 — concurrent use of the public API is free of data races (DESIGN.md §3.8, §5 C11).
@@ -37,6 +42,7 @@ func init() {
 		{"race-bus", "2-4 tasks on one minibus.Bus: Send, Listen + receive, cancel", raceBus, []string{"internal/minibus"}},
 		{"race-router", "2-4 tasks on one router: Add/Remove/Has/Get with factory, fallback and change callback", raceRouter, []string{"pkg/router"}},
 		{"race-group", "group.Execute with every strategy, members as tasks reading their context and returning messages the caller reads", raceGroup, []string{"pkg/group"}},
+		{"race-wrap", "client task and handler task over wrap.ServerToClient (unary with header/trailer options, bidi echo with SetHeader/SetTrailer, status return, client cancel); both sides change their messages after sending", raceWrap, []string{"pkg/wrap"}},
 		{"race-models", "2-4 tasks on the electric, parent and metadata models: every public method incl. Pull consumers reading events", raceModels, []string{"pkg/trait/electricpb Model", "pkg/trait/parentpb Model", "pkg/trait/metadatapb Model", "pkg/resource"}},
 	} {
 		s := s
@@ -557,5 +563,108 @@ func raceModels(w *World) {
 		}
 	}
 	runOps(w, lists)
+	w.Run()
+}
+
+// ---- wrapped clients ---------------------------------------------------------------------------------------------------
+
+type raceWrapServer struct {
+	testproto.UnimplementedTestApiServer
+	w      *World
+	n      int
+	fail   bool
+	header bool
+}
+
+func (s *raceWrapServer) adopt() func() {
+	t := s.w.Adopt("srv", false)
+	return t.Detach
+}
+
+func (s *raceWrapServer) Unary(ctx context.Context, req *testproto.UnaryRequest) (*testproto.UnaryResponse, error) {
+	defer s.adopt()()
+	_ = grpc.SetHeader(ctx, metadata.Pairs("x-h", req.Msg))
+	_ = grpc.SetTrailer(ctx, metadata.Pairs("x-t", "t"))
+	if s.fail {
+		return nil, status.Error(codes.NotFound, "nope")
+	}
+	resp := &testproto.UnaryResponse{Msg: "r:" + req.Msg}
+	return resp, nil
+}
+
+func (s *raceWrapServer) BidiStream(st grpc.BidiStreamingServer[testproto.BidiStreamRequest, testproto.BidiStreamResponse]) error {
+	defer s.adopt()()
+	if s.header {
+		_ = st.SetHeader(metadata.Pairs("x-h", "1"))
+	}
+	for i := 0; i < s.n; i++ {
+		m, err := st.Recv()
+		if err != nil {
+			return err
+		}
+		out := &testproto.BidiStreamResponse{Msg: "echo:" + m.Msg}
+		if err := st.Send(out); err != nil {
+			return err
+		}
+		out.Msg = "changed-after-send" // a sender may reuse its message
+	}
+	st.SetTrailer(metadata.Pairs("x-t", "t"))
+	if s.fail {
+		return status.Error(codes.Aborted, "done")
+	}
+	return nil
+}
+
+func raceWrap(w *World) {
+	t := w.Tape
+	srv := &raceWrapServer{w: w, n: t.Choose(4), fail: t.Flag(1, 2), header: t.Flag(1, 2)}
+	client := testproto.NewTestApiClient(wrap.ServerToClient(testproto.TestApi_ServiceDesc, srv))
+	unary := t.Flag(1, 3)
+	cancelEarly := t.Flag(1, 4)
+	w.Go("cli", false, func(task *Task) {
+		ctx, cancel := context.WithCancel(context.Background())
+		defer cancel()
+		if unary {
+			var h, tr metadata.MD
+			req := &testproto.UnaryRequest{Msg: "q"}
+			resp, err := client.Unary(ctx, req, grpc.Header(&h), grpc.Trailer(&tr))
+			req.Msg = "changed-after-call"
+			if err == nil {
+				_ = len(resp.Msg)
+			}
+			_ = len(h) + len(tr)
+			return
+		}
+		st, err := client.BidiStream(ctx)
+		if err != nil {
+			return
+		}
+		for i := 0; i < srv.n; i++ {
+			task.Yield("send")
+			m := &testproto.BidiStreamRequest{Msg: fmt.Sprint("m", i)}
+			if err := st.Send(m); err != nil {
+				break
+			}
+			m.Msg = "changed-after-send"
+			task.Yield("recv")
+			r, err := st.Recv()
+			if err != nil {
+				break
+			}
+			_ = len(r.Msg)
+			if cancelEarly && i == 0 {
+				cancel()
+			}
+		}
+		task.Yield("close")
+		_ = st.CloseSend()
+		for {
+			if _, err := st.Recv(); err != nil {
+				break
+			}
+		}
+		h, _ := st.Header()
+		_ = len(h) + len(st.Trailer())
+	})
 	w.Run()
 }
